@@ -76,7 +76,7 @@ OPS = [
                               '#[allow(unused_imports)] use crate::verif_tables::*;\n'
                               '#[allow(unused_imports)] use crate::verif_machine::*;\n'
                               '#[allow(unused_imports)] use vstd::future::FutureAdditionalSpecFns;\n#[allow(unused_imports)] use vstd::std_specs::iter::IteratorSpec;\n'
-                              'verus! { broadcast use {crate::verif_ext::group_ipp_seq, crate::verif_ext::axiom_string_key_model, vstd::std_specs::hash::group_hash_axioms, crate::verif_machine::group_ipp_machine, vstd::std_specs::btree::group_btree_axioms, crate::request::lemma_req_view}; }'},
+                              'verus! { broadcast use {crate::verif_ext::group_ipp_seq, crate::verif_ext::axiom_string_key_model, vstd::std_specs::hash::group_hash_axioms, crate::verif_ext::group_ipp_machine, vstd::std_specs::btree::group_btree_axioms, crate::request::lemma_req_view}; }'},
     {'op': 'wrap', 'items': ['enum IppParseError', 'fn list_or_value', 'struct ParserState', 'impl ParserState',
                              'struct IppParser', 'impl IppParser', 'struct AsyncIppParser', 'impl AsyncIppParser']},
     {'op': 'append', 'text': '''verus! {
